@@ -3,6 +3,12 @@
    order; loops (bookmark re-reading, add_to_context / remove_from_context as coded),
    blocks, include_if, omit_content.  Definitions only.
 
+   What the code does with a loop variable after end_for (pop it / put the shadowed binding
+   back), with the body of a loop over zero elements (leave it to the enclosing block / read
+   it with omit_content) and with the removal of an absent key (KeyError / no-op) are
+   parameters [scope emp tol], instantiated by the wire with the behavioural probes of the
+   current tree (Gen/Tables.v: loop_scope_policy, empty_loop_policy, remove_tolerant).
+
    A row has two templated cells: include_if (evaluated first, see inst_row_incl), then the main argument
    (message_text).  Everything else in a row is literal.  The model threads an EVENT LOG:
    [EvRow i templ]   parse_next_row returned row i, templ = not omit_templating
@@ -28,7 +34,12 @@ Fixpoint ctx_remove (c : ctx) (x : str) : ctx :=
   | [] => []
   | (k, v) :: r => if str_eqb k x then ctx_remove r x else (k, v) :: ctx_remove r x
   end.
-Definition ctx_set (c : ctx) (x : str) (v : value) : ctx := (x, v) :: ctx_remove c x.
+(* context[x] = v : an existing key keeps its position, a new one goes last *)
+Fixpoint ctx_set (c : ctx) (x : str) (v : value) : ctx :=
+  match c with
+  | [] => [(x, v)]
+  | (k, w) :: r => if str_eqb k x then (k, v) :: r else (k, w) :: ctx_set r x v
+  end.
 
 Fixpoint nv_to_value (v : nv) : value :=
   match v with
@@ -38,6 +49,23 @@ Fixpoint nv_to_value (v : nv) : value :=
 
 Section Sheet.
 Variables penv pnat : undefined_policy.
+Variable scope : loop_scope.
+Variable emp : empty_loop.
+Variable tol : bool.
+
+(* SheetParser.get_shadowed_context for the loop variable (nothing is remembered before the repair) *)
+Definition saved_of (c : ctx) (x : str) : option value :=
+  match scope with ScopeRestore => lookup c x | ScopePop => None end.
+
+(* after end_for: add_to_context(x, shadowed) or remove_from_context(x) *)
+Definition ctx_restore (c : ctx) (x : str) (saved : option value) : option ctx :=
+  match saved with
+  | Some v => Some (ctx_set c x v)
+  | None => match lookup c x with
+            | Some _ => Some (ctx_remove c x)
+            | None => if tol then Some c else None
+            end
+  end.
 
 (* does parse_as_string reach env.from_string(...).render for this cell? *)
 Definition renders (octx : option ctx) (c : cell) : bool :=
@@ -156,6 +184,19 @@ Definition end_check (bt : btype) (k : rkind) : endres :=
 
 Variable rows : list srow.
 
+(* for entry in iterlist: go_to_bookmark, add_to_context, parse the body
+   ([body] = _parse_block(depth + 1, "for") of the enclosing call, started at the bookmark) *)
+Fixpoint loop_iter (body : ctx -> list event -> list event * result terr (nat * ctx)) (var : str)
+         (es : list value) (p : nat) (c : ctx) (lg : list event) : list event * result terr (nat * ctx) :=
+  match es with
+  | [] => (lg, Ok (p, c))
+  | en :: rest =>
+    match body (ctx_set c var en) lg with
+    | (lg', Err e) => (lg', Err e)
+    | (lg', Ok (p', c')) => loop_iter body var rest p' c' lg'
+    end
+  end.
+
 Fixpoint parse_block (fuel : nat) (bt : btype) (omit : bool) (pos : nat) (cx : ctx) (log : list event)
   {struct fuel} : list event * result terr (nat * ctx) :=
   match fuel with
@@ -192,21 +233,20 @@ Fixpoint parse_block (fuel : nat) (bt : btype) (omit : bool) (pos : nat) (cx : c
               | [], _ => (log2, Err EBlock)
               | _, MText _ => (log2, Err EUnsupported)
               | _, MEntries es =>
-                match (fix iter (es : list value) (p : nat) (c : ctx) (lg : list event)
-                         : list event * result terr (nat * ctx) :=
-                         match es with
-                         | [] => (lg, Ok (p, c))
-                         | en :: rest =>
-                           match parse_block f BFor false (S pos) (ctx_set c var en) lg with
-                           | (lg', Err e) => (lg', Err e)
-                           | (lg', Ok (p', c')) => iter rest p' c' lg'
-                           end
-                         end) es (S pos) cx log2 with
+                match loop_iter (fun c lg => parse_block f BFor false (S pos) c lg) var es (S pos) cx log2 with
                 | (log3, Err e) => (log3, Err e)
                 | (log3, Ok (p, c3)) =>
-                  match lookup c3 var with
-                  | None => (log3, Err EKey)
-                  | Some _ => parse_block f bt omit p (ctx_remove c3 var) log3
+                  (* nothing to iterate over: the body is read with omit_content (repaired code) *)
+                  match (match es, emp with
+                         | [], EmptySkip => parse_block f BFor true p c3 log3
+                         | _, _ => (log3, Ok (p, c3))
+                         end) with
+                  | (log4, Err e) => (log4, Err e)
+                  | (log4, Ok (p4, c4)) =>
+                    match ctx_restore c4 var (saved_of cx var) with
+                    | None => (log4, Err EKey)
+                    | Some c5 => parse_block f bt omit p4 c5 log4
+                    end
                   end
                 end
               end
@@ -232,4 +272,4 @@ End Sheet.
 (* fuel: every call consumes one unit; the harness keeps sheets far below this *)
 Definition run_sheet (penv pnat : undefined_policy) (rows : list srow) (cx : ctx)
   : list event * result terr (nat * ctx) :=
-  parse_block penv pnat rows (N.to_nat 20000) BRoot false 0 cx [].
+  parse_block penv pnat loop_scope_policy empty_loop_policy remove_tolerant rows (N.to_nat 20000) BRoot false 0 cx [].
